@@ -212,6 +212,10 @@ func updateTXTimestamp(clientID string, rxt time.Time, txt *time.Time) {
 	tssMu.Lock()
 	defer tssMu.Unlock()
 
+	// the value passed back unchanged by a listener that could not read a
+	// kernel tx timestamp, i.e., before it is adjusted for monotonicity below
+	txt64in := ntp.Time64FromTime(*txt)
+
 	if !rxt.Before(*txt) {
 		// ensure strict monotonicity of rx/tx timestamps
 		*txt = rxt
@@ -235,7 +239,7 @@ func updateTXTimestamp(clientID string, rxt time.Time, txt *time.Time) {
 			}
 		}
 		if x != -1 {
-			if tssi.buf[x].txt != txt64 {
+			if tssi.buf[x].txt != txt64in {
 				tssi.buf[x].txt = txt64
 			} else {
 				// No updated tx timestamp available
